@@ -496,9 +496,9 @@ def _cost_metrics(tier, seed):
             refg = sum(nearest([d * inch for d in D], ghg_c, p.diameter) * p.length for pn, p in wn.pipes())
             evals += 2
             distinct.add((rel, variant))
-            if abs(cost - ref) > 1e-6 * max(1, abs(ref)):
+            if not (abs(cost - ref) <= 1e-6 * max(1, abs(ref))):
                 failures.append(dict(net=rel, variant=variant, metric="annual_network_cost", got=float(cost), expected=float(ref)))
-            if abs(ghg - refg) > 1e-6 * max(1, abs(refg)):
+            if not (abs(ghg - refg) <= 1e-6 * max(1, abs(refg))):
                 failures.append(dict(net=rel, variant=variant, metric="annual_ghg_emissions", got=float(ghg), expected=float(refg)))
             if len(samples) < 2:
                 samples.append(dict(net=rel, variant=variant, annual_network_cost=float(cost), annual_ghg=float(ghg)))
